@@ -82,11 +82,9 @@ public:
     const auto & y = static_cast<const _Derived &>(*this).coeffs().x();
 
     using std::atan2;
-    if (y <= 0.) {
-      return atan2(y, x);
-    } else {
-      return atan2(-y, -x) - Scalar(M_PI);
-    }
+    // decide on the angle rather than on y: y = +0 with x < 0 gives +pi, which belongs at -pi
+    const Scalar a = atan2(y, x);
+    return a > Scalar(0) ? a - Scalar(2 * M_PI) : a;
   }
 
   /**
@@ -98,11 +96,9 @@ public:
     const auto & y = static_cast<const _Derived &>(*this).coeffs().x();
 
     using std::atan2;
-    if (y >= 0.) {
-      return atan2(y, x);
-    } else {
-      return Scalar(M_PI) + atan2(-y, -x);
-    }
+    // decide on the angle rather than on y: y = -0 with x < 0 gives -pi, which belongs at +pi
+    const Scalar a = atan2(y, x);
+    return a < Scalar(0) ? a + Scalar(2 * M_PI) : a;
   }
 
   /**
